@@ -29,6 +29,9 @@ cost, coverage, repair delay, durations, surveys per year, months, MDL, pre-simu
 per-program file and the summaries byte for byte; period start/end: the daily seed series is redrawn, so only the
 scenario rows fixed by the emission seeds are compared with the fresh run, and the run is repeated on the folder and
 must be byte-identical).
+Simulation-count history: one generator folder, inputs unchanged except simulation_count n -> smaller -> n (repairable
+source of distribution type, non-repairable of sample type): run 1 and run 3 byte for byte, every simulation.
+The run-after stage always contains the variant "n-sims-grown" (the folder was used before with one simulation less).
 History stage: period A is run, then on the SAME generator folder period B (A shifted by one non-leap year: same
 number of days, other dates) is run twice; the two B runs must be byte-identical and the saved daily seed series must
 cover exactly B's dates.
@@ -74,7 +77,10 @@ QE_FILE = "qe_errors.csv"
 WIDE_TAGS = ["sims", "crews", "followup", "weather", "cost", "repairs", "workday", "economics"]
 
 
-def c12_config(rng, ndays, n_sites, n_sims, four=True, keep_all=True, start=None, wide=None):
+DIST_SOURCE = {"dist": "lognorm", "scale": -1.79, "shape": 2.17, "max": 100000, "unit": "kilogram", "time": "hour"}
+
+
+def c12_config(rng, ndays, n_sites, n_sims, four=True, keep_all=True, start=None, wide=None, dist=None):
     # start early enough in the year that the run stays inside one calendar year (make_config truncates
     # runs that would end in a trailing partial year, finding recorded under C06)
     # `start` given: boundary periods chosen on purpose (leap day inside, ending on Dec 31 = day-of-year 366, 1-2 days)
@@ -132,6 +138,10 @@ def c12_config(rng, ndays, n_sites, n_sims, four=True, keep_all=True, start=None
         st_["id"] = i_
     rng.shuffle(cfg["sites"])
     cfg["keep_all"] = keep_all
+    # emission-rate sources: the repairable one of distribution type (a frozen scipy.stats distribution: it is pickled
+    # with the infrastructure) in about half of the configurations, the non-repairable one always of sample type
+    if dist if dist is not None else rng.random() < 0.5:
+        cfg["dist_sources"] = {"rep_src": dict(DIST_SOURCE)}
     if wide:
         # applied LAST (after this generator's own overrides and the extra methods AIR_L), from the derived generator
         # of wholerun.apply_wide; every applied leaf is recorded in cfg["wide_applied"] and written by materialize
@@ -688,7 +698,7 @@ SEEDS_REDRAWN = ("period-start", "period-end")   # the earlier run's period diff
 
 def run_after_plan(ctx):
     """(cfg, [(cfg_prev, what_differs)]) - everything random drawn in the main thread"""
-    cfg = c12_config(ctx.rng, ctx.pick(40, 60), 4, 1, four=ctx.rng.choice(["three", False]))
+    cfg = c12_config(ctx.rng, ctx.pick(40, 60), 4, 2, four=ctx.rng.choice(["three", False]), dist=True)
     out, seen = [], set()
     want = ctx.pick(1, 5)
     # one variant whose PERIOD differs (the kind of history a narrowed generator-cache key gets wrong), the others of
@@ -705,6 +715,12 @@ def run_after_plan(ctx):
             continue
         seen.add(what)
         out.append((prev, what))
+    # the folder was used before with FEWER simulations: the added scenario is generated in a later process, from the
+    # infrastructure unpickled from the generator folder, and must still be the one the persisted seeds define
+    grown = json.loads(json.dumps(cfg))
+    grown["n_sims"] = cfg["n_sims"] - 1
+    grown.pop("wide_applied", None)
+    out.append((grown, "n-sims-grown"))
     return cfg, out
 
 
@@ -800,6 +816,69 @@ def run_after_record(ctx, tables, cfg, variants, res):
                         f"differs in {what} are not the same ({it['compared']}); first differing file {d['file']}",
                         dict(inp, first_difference=d))
     ctx.sample({"run_after": [[it["what"], it["compared"], None if it["diff"] is None else it["diff"]["file"]] for it in res["items"]]})
+
+
+# ------------------------------------------------------------------------------------------------
+# simulation-count history: n simulations, then fewer, then n again on ONE generator folder, inputs otherwise unchanged
+# ------------------------------------------------------------------------------------------------
+def counts_plan(ctx):
+    out = []
+    for (n, m) in ctx.pick([(3, ctx.rng.choice([1, 2]))], [(3, 2), (3, 1), (4, 2)]):
+        cfg = c12_config(ctx.rng, ctx.pick(35, 60), 4, n, four=ctx.rng.choice(["three", False]), dist=True)
+        out.append((cfg, m))
+    return out
+
+
+def counts_run(cfg, smaller, repo=None):
+    """run 1 (n simulations), run 2 (`smaller` simulations), run 3 (n simulations) in one folder; returns the
+    difference between run 1 and run 3 (every per-program file of every simulation and the summaries) or None"""
+    progs = [p["name"] for p in cfg["programs"]]
+    base = {"order": progs, "debug": True, "processes": 1}
+    few = json.loads(json.dumps(cfg))
+    few["n_sims"] = smaller
+    root0 = tempfile.mkdtemp(prefix="ldarverif_c12n_")
+    try:
+        for attempt in range(4):
+            root = os.path.join(root0, f"n{attempt}")
+            os.makedirs(root)
+            r1 = run_schedule(cfg, base, root, repo=repo)
+            if r1.rc == 0:
+                break
+        if r1.rc != 0:
+            return {"rc": [r1.rc], "diff": None, "log": r1.log[-2000:], "monitor": []}
+        r2 = run_schedule(few, base, root, repo=repo)
+        r3 = run_schedule(cfg, base, root, repo=repo)
+        d = None
+        if r2.rc != 0 or r3.rc != 0:
+            bad = r2 if r2.rc != 0 else r3
+            d = {"file": "<run crashed>", "kind": "run-crashed", "diff": {"log_tail": bad.log[-1500:]}}
+        else:
+            d = compare(r1, r3, "same")
+        return {"rc": [r1.rc, r2.rc, r3.rc], "diff": d, "log": "", "monitor": [r1.monitor, r2.monitor, r3.monitor]}
+    finally:
+        shutil.rmtree(root0, ignore_errors=True)
+
+
+def counts_record(ctx, tables, cfg, smaller, res):
+    n = cfg["n_sims"]
+    if res["rc"][0] != 0:
+        ctx.broke("simulation-count history: the first run raised on 4 freshly seeded folders", res["log"])
+        return
+    ctx.traces += 3
+    ctx.evaluations += 1
+    ctx.count(f"history:sim-count:{n}-{smaller}-{n}")
+    ctx.nontrivial.add(f"history:sim-count:{n}-{smaller}-{n}")
+    sched = {"order": [p["name"] for p in cfg["programs"]], "debug": True, "processes": 1}
+    for mon in res["monitor"]:
+        check_monitor(ctx, Run(sched, 0, "", {}, mon, 0), tables, "sim-count-history")
+    d = res["diff"]
+    if d is not None:
+        ctx.violate(f"C12:history:sim-count-n-smaller-n:{d['kind']}",
+                    f"one generator folder, inputs unchanged except simulation_count {n} -> {smaller} -> {n}: the first and the third run differ, "
+                    f"first differing file {d['file']}",
+                    {"counts_history": {"cfg": cfg, "smaller": smaller}, "first_difference": d})
+    ctx.sample({"sim_count_history": [n, smaller, n], "dist_sources": sorted(cfg.get("dist_sources") or {}),
+                "difference": None if d is None else d["file"]})
 
 
 # ------------------------------------------------------------------------------------------------
@@ -1109,15 +1188,17 @@ def run(ctx):
                      "not listed as mutated", f"grew from {len(d['before'])} to {len(d['after'])} entries in three calls")
     hist_cfgs = history_plan(ctx)
     ra_cfg, ra_variants = run_after_plan(ctx)
+    cnt_plan = counts_plan(ctx)
     # everything random is drawn here, in the main thread; the runs then go concurrently (own folders, own
     # sub-context each) and are merged in a fixed order
     todo = []
     for i, (ndays, n_sites, n_sims, four, keep_all, start, wide) in enumerate(config_plan(ctx)):
         cfg = c12_config(ctx.rng, ndays, n_sites, n_sims, four, keep_all, start, wide)
         todo.append((f"cfg{i}", cfg, make_plan(ctx, cfg), core.Ctx(ctx.prop, ctx.tier, ctx.seed)))
-    with ThreadPoolExecutor(max_workers=ctx.pick(4, 3)) as cex, ThreadPoolExecutor(max_workers=2) as hex_:
+    with ThreadPoolExecutor(max_workers=ctx.pick(4, 3)) as cex, ThreadPoolExecutor(max_workers=3) as hex_:
         hist_jobs = [hex_.submit(history_run, a, b, repo) for a, b in hist_cfgs]
         ra_job = hex_.submit(run_after_run, ra_cfg, ra_variants, repo)
+        cnt_jobs = [hex_.submit(counts_run, c, m, repo) for c, m in cnt_plan]
         jobs = [cex.submit(differential, sub, cfg, tables, repo, lab, planned) for (lab, cfg, planned, sub) in todo]
         errs = []
         for (lab, cfg, planned, sub), j in zip(todo, jobs):
@@ -1133,6 +1214,8 @@ def run(ctx):
         for (a, b), j in zip(hist_cfgs, hist_jobs):
             history_record(ctx, tables, a, b, j.result())
         run_after_record(ctx, tables, ra_cfg, ra_variants, ra_job.result())
+        for (c, m), j in zip(cnt_plan, cnt_jobs):
+            counts_record(ctx, tables, c, m, j.result())
         lap("whole runs (configurations and history concurrently)")
     ctx.assumptions.append("C12: effect analysis is syntactic (import-closure reachability, aliases through parameters not seen); "
                            "OS scheduling, multiprocessing pickling and float formatting are covered by the differential runs only")
@@ -1176,6 +1259,17 @@ def replay(ctx, data):
         tgt, d = direct_equipment_constant(ctx, repo)
         print("direct equipment constant:", "MUTATED" if tgt else "unchanged", d["outs"][0])
         return 1 if (tgt or ctx.violations) else 0
+    if "counts_history" in inp:
+        ch = inp["counts_history"]
+        res = counts_run(ch["cfg"], ch["smaller"], repo)
+        n = ch["cfg"]["n_sims"]
+        print(f"one generator folder, simulation_count {n} -> {ch['smaller']} -> {n}; return codes", res["rc"])
+        if res["diff"] is None:
+            print("run 1 and run 3 are byte-identical" if len(res["rc"]) == 3 else "first run failed: " + res["log"][-800:])
+            return 0 if len(res["rc"]) == 3 else 1
+        print("first differing file between run 1 and run 3:", res["diff"]["file"], "kind:", res["diff"]["kind"])
+        print(json.dumps(res["diff"]["diff"], indent=1))
+        return 1
     if "run_after" in inp:
         ra = inp["run_after"]
         res = run_after_run(ra["cfg"], [(ra["cfg_prev"], ra["what_differs"])], repo)
